@@ -31,4 +31,5 @@ def c07_local_class_instantiated_in_place(case, what):
         return False
     return (what.startswith("flatten raised IndexError")
             or what.startswith("flatten raised ModificationTargetNotFound")
-            or what in ("disagreement:flatten:status", "disagreement:flatten:variables", "disagreement:flatten:equations"))
+            or what in ("disagreement:flatten:status", "disagreement:flatten:variables", "disagreement:flatten:equations",
+                        "disagreement:flatten:initial-equations"))
